@@ -479,31 +479,94 @@ func ruleModeTable(c *Ctx, rule string) {
 		r.Ob(rule, "anchor engine.searchReplace", "").Und("not found")
 		return
 	}
-	cds := NewPostDom(fn).ControlDeps()
+	// The table is read off the code by fixing the mode: for each mode constant, the file operations that stay reachable in
+	// searchReplace and in the helpers it hands the mode to (conditional constant propagation with the mode parameter fixed).
 	type site struct {
+		top  *ssa.Call // the instruction in searchReplace through which the operation is reached
 		call *ssa.Call
 		what string
 	}
-	byMode := map[string][]site{}
-	instrsOf(fn, func(in ssa.Instruction) {
-		call, ok := in.(*ssa.Call)
-		if !ok {
-			return
+	var modeP *ssa.Parameter
+	var modeT types.Type
+	for _, p := range fn.Params {
+		if n, ok := p.Type().(*types.Named); ok && n.Obj().Name() == "ReplaceMode" {
+			modeP, modeT = p, n
 		}
-		sc := call.Call.StaticCallee()
+	}
+	if modeP == nil {
+		r.Ob(rule, "anchor: the mode parameter of searchReplace", c.pos(fn.Pos())).Und("searchReplace has no parameter of type ReplaceMode")
+		return
+	}
+	modes := map[string]constant.Value{}
+	if p := c.Pkgs["engine"]; p != nil {
+		for _, name := range p.Types.Scope().Names() {
+			if cst, ok := p.Types.Scope().Lookup(name).(*types.Const); ok && types.Identical(cst.Type(), modeT) {
+				modes[cst.Name()] = cst.Val()
+			}
+		}
+	}
+	isFileOp := func(sc *ssa.Function) bool {
 		if sc == nil || sc.Pkg == nil {
-			return
+			return false
 		}
 		p := sc.Pkg.Pkg.Path()
 		isFiles := p == modRoot+"/libvore/files" && (strings.HasPrefix(sc.Name(), "WriterFrom") || strings.HasPrefix(sc.Name(), "ReaderFrom"))
 		isOS := p == "os" && sc.Signature.Recv() == nil && sc.Name() != "Getwd"
-		if !isFiles && !isOS {
-			return
+		return isFiles || isOS
+	}
+	var collect func(f *ssa.Function, args []wLat, top *ssa.Call, depth int) []site
+	collect = func(f *ssa.Function, args []wLat, top *ssa.Call, depth int) []site {
+		w := &World{Fn: f}
+		w.Run(args...)
+		var out []site
+		for _, b := range f.Blocks {
+			if !w.Reach[b] {
+				continue
+			}
+			for _, in := range b.Instrs {
+				var cc *ssa.CallCommon
+				var call *ssa.Call
+				switch x := in.(type) {
+				case *ssa.Call:
+					cc, call = &x.Call, x
+				case *ssa.Defer:
+					cc = &x.Call
+				}
+				if cc == nil {
+					continue
+				}
+				sc := cc.StaticCallee()
+				t := top
+				if t == nil {
+					t = call
+				}
+				if isFileOp(sc) && call != nil {
+					out = append(out, site{t, call, exprStr(call)})
+					continue
+				}
+				if sc == nil || depth >= 2 || !c.isRepoFn(sc) || sc.Pkg == nil || sc.Pkg != f.Pkg || len(sc.Blocks) == 0 {
+					continue
+				}
+				// a helper that is handed the mode
+				var sub []wLat
+				gets := false
+				for _, a := range cc.Args {
+					l := w.get(a)
+					if l.k == 0 {
+						l = wTop
+					}
+					if l.k == 1 && types.Identical(a.Type(), modeT) {
+						gets = true
+					}
+					sub = append(sub, l)
+				}
+				if gets && call != nil {
+					out = append(out, collect(sc, sub, t, depth+1)...)
+				}
+			}
 		}
-		ms := c.modeLits(fn, cds, call.Block())
-		key := strings.Join(ms, ",")
-		byMode[key] = append(byMode[key], site{call, exprStr(call)})
-	})
+		return out
+	}
 	expect := map[string][]string{
 		"NEW":       {`WriterFromFile((filename + "<suffix>"))`},
 		"OVERWRITE": {"ReaderFromFileToMemory(filename)", "WriterFromFile(filename)"},
@@ -511,8 +574,21 @@ func ruleModeTable(c *Ctx, rule string) {
 	}
 	for _, mode := range []string{"NEW", "NOTHING", "OVERWRITE"} {
 		ob := r.Ob(rule, "searchReplace: mode "+mode+" opens exactly the files it may", c.pos(fn.Pos()))
+		mv, ok := modes[mode]
+		if !ok {
+			ob.Und("no constant " + mode + " of type ReplaceMode")
+			continue
+		}
+		args := make([]wLat, len(fn.Params))
+		for i, p := range fn.Params {
+			args[i] = wTop
+			if p == modeP {
+				args[i] = wConst(mv)
+			}
+		}
+		sites := collect(fn, args, nil, 0)
 		var got []string
-		for _, s := range byMode[mode] {
+		for _, s := range sites {
 			w := s.what
 			// normalise the NEW suffix: any non-empty constant
 			if mode == "NEW" && strings.HasPrefix(w, `WriterFromFile((filename + "`) && !strings.HasPrefix(w, `WriterFromFile((filename + ""`) {
@@ -521,23 +597,36 @@ func ruleModeTable(c *Ctx, rule string) {
 			got = append(got, w)
 			ob.Pos = c.pos(s.call.Pos())
 		}
-		if strings.Join(got, " ; ") == strings.Join(expect[mode], " ; ") {
-			// ordering for OVERWRITE: the in-memory load dominates the truncating open
-			if mode == "OVERWRITE" && !instrDominates(byMode[mode][0].call, byMode[mode][1].call) {
-				ob.Bad("the file is truncated before its original contents have been loaded into memory")
-			} else {
-				ob.OKnt(strings.Join(got, " then "))
+		sorted := append([]string{}, got...)
+		sort.Strings(sorted)
+		want := append([]string{}, expect[mode]...)
+		sort.Strings(want)
+		if strings.Join(sorted, " ; ") == strings.Join(want, " ; ") {
+			// ordering for OVERWRITE: the in-memory load comes before the truncating open
+			if mode == "OVERWRITE" {
+				var load, open site
+				for _, s := range sites {
+					if strings.HasPrefix(s.what, "ReaderFromFileToMemory") {
+						load = s
+					} else {
+						open = s
+					}
+				}
+				before := false
+				if load.top == open.top {
+					before = instrDominates(load.call, open.call)
+				} else {
+					before = instrDominates(load.top, open.top)
+				}
+				if !before {
+					ob.Bad("the file is truncated before its original contents have been loaded into memory")
+					continue
+				}
 			}
+			ob.OKnt("with the mode fixed to " + mode + " the reachable file operations are: " + strings.Join(got, " then "))
 		} else {
 			ob.Bad(fmt.Sprintf("in mode %s searchReplace performs [%s]; expected [%s]", mode, strings.Join(got, " ; "), strings.Join(expect[mode], " ; ")))
 		}
-	}
-	if extra, ok := byMode[""]; ok {
-		var ws []string
-		for _, s := range extra {
-			ws = append(ws, s.what)
-		}
-		r.Ob(rule, "searchReplace: file operations outside the mode switch", c.pos(extra[0].call.Pos())).Bad("file operations that are not selected by the replace mode: " + strings.Join(ws, ", "))
 	}
 	// Run passes NOTHING; RunFiles forces NOTHING for file names. The mode that reaches search() is followed from each API function
 	// through helpers, with the API function's bool parameter fixed to true and to false.
@@ -1259,19 +1348,105 @@ func ruleFileListGuards(c *Ctx, rule string) {
 			ob.OKnt("added under !IsDir() and pathMatches(...): " + path)
 		}
 	}
-	// recursion always shrinks the pattern
+	// recursion always shrinks the pattern: every call inside a cycle of the call graph below GetFileList passes something that is
+	// strictly smaller than what the caller received - path.shrink(), a slice entries[k:] with k >= 1, or an index stepped forward
 	shrink := c.Method("files", "Path", "shrink")
 	ob := r.Ob(rule, "GetFileList recurses only on the shrunk pattern", c.pos(fn.Pos()))
-	bad := 0
-	nrec := 0
-	for _, call := range callsTo(fn, fn) {
-		nrec++
-		recv := call.Call.Args[0]
-		if rc, ok := recv.(*ssa.Call); !ok || rc.Call.StaticCallee() != shrink {
-			bad++
-		}
+	below := c.Reachable(fn)
+	inCycle := func(f, g *ssa.Function) bool { // g is called by f; does g reach f again?
+		return g == f || c.Reachable(g)[f]
 	}
-	ob.Check(nrec > 0 && bad == 0, fmt.Sprintf("%d recursive calls, all on path.shrink()", nrec), fmt.Sprintf("%d of %d recursive calls are not on path.shrink(): the recursion depth is not bounded by the number of segments", bad, nrec))
+	var same, unknown []string
+	nrec := 0
+	for f := range below {
+		if !c.isRepoFn(f) || f.Pkg != fn.Pkg {
+			continue
+		}
+		instrsOf(f, func(in ssa.Instruction) {
+			call, ok := in.(*ssa.Call)
+			if !ok {
+				return
+			}
+			g := call.Call.StaticCallee()
+			if g == nil || !below[g] && g != fn || !c.isRepoFn(g) || g.Pkg != fn.Pkg || !inCycle(f, g) {
+				return
+			}
+			// only calls that hand a pattern on are of interest (a closure that is given a directory name is control flow)
+			pathT := c.NamedType("files", "Path")
+			takesPattern := false
+			for _, a := range call.Call.Args {
+				t := deref(a.Type())
+				if pathT != nil && types.Identical(t, pathT) {
+					takesPattern = true
+				}
+				if sl, ok := a.Type().Underlying().(*types.Slice); ok {
+					if nt, ok := sl.Elem().(*types.Named); ok && nt.Obj().Name() == "PathEntry" {
+						takesPattern = true
+					}
+				}
+			}
+			if !takesPattern {
+				return
+			}
+			nrec++
+			smaller, unchanged := false, true
+			for _, a := range call.Call.Args {
+				// only the arguments that carry the pattern decide
+				isPattern := pathT != nil && types.Identical(deref(a.Type()), pathT)
+				if sl, ok := a.Type().Underlying().(*types.Slice); ok {
+					if nt, ok := sl.Elem().(*types.Named); ok && nt.Obj().Name() == "PathEntry" {
+						isPattern = true
+					}
+				}
+				if bt, ok := a.Type().Underlying().(*types.Basic); ok && bt.Info()&types.IsInteger != 0 {
+					isPattern = true // an index into the segments
+				}
+				if !isPattern {
+					continue
+				}
+				a = resolveCaptured(f, a)
+				switch x := a.(type) {
+				case *ssa.Call:
+					if x.Call.StaticCallee() == shrink && shrink != nil {
+						smaller = true
+					}
+					unchanged = false
+				case *ssa.Slice:
+					if k, ok := constInt(x.Low); x.Low != nil && ok && k >= 1 {
+						smaller = true
+					}
+					unchanged = false
+				case *ssa.BinOp:
+					if k, ok := constInt(x.Y); ok && x.Op == token.ADD && k >= 1 {
+						if _, isParam := x.X.(*ssa.Parameter); isParam {
+							smaller = true
+						}
+					}
+					unchanged = false
+				case *ssa.Parameter, *ssa.Const:
+				default:
+					unchanged = false
+				}
+			}
+			switch {
+			case smaller:
+			case unchanged:
+				same = append(same, c.pos(call.Pos()))
+			default:
+				unknown = append(unknown, c.pos(call.Pos()))
+			}
+		})
+	}
+	switch {
+	case len(same) > 0:
+		ob.Bad(fmt.Sprintf("the recursive call(s) at %s pass on exactly what the function received: the recursion depth is not bounded by the number of segments", strings.Join(same, ", ")))
+	case nrec == 0:
+		ob.Und("no recursive call found below GetFileList: the pattern is walked in some other way")
+	case len(unknown) > 0:
+		ob.Und(fmt.Sprintf("%d recursive call(s); at %s it is not evident that the pattern handed on is shorter", nrec, strings.Join(unknown, ", ")))
+	default:
+		ob.OKnt(fmt.Sprintf("%d recursive call(s), each on path.shrink(), a tail slice of the segments or an index stepped forward", nrec))
+	}
 	ob.Nontrivial = true
 }
 
@@ -1635,7 +1810,7 @@ func ruleNoSharedBuffers(c *Ctx, rule string) {
 	}
 	// field path of an address relative to its root: "window.buffer"
 	pathOf := func(addr ssa.Value) (ssa.Value, string) {
-		ch := traceAddr(addr)
+		ch := traceAddrOpt(addr, false) // layout paths: an embedded struct is a field like any other here
 		var parts []string
 		for i := len(ch.Steps) - 1; i >= 0; i-- {
 			if ch.Steps[i].Kind == "field" {
@@ -1963,4 +2138,51 @@ func (c *Ctx) nonNegAt(fn *ssa.Function, v ssa.Value, at *ssa.BasicBlock, depth 
 		return false, exprStr(x) + " is not tested"
 	}
 	return false, exprStr(v)
+}
+
+// resolveCaptured: a value that a closure reads from a variable of the enclosing function is replaced by the one value that variable
+// is given there (when there is exactly one).
+func resolveCaptured(f *ssa.Function, v ssa.Value) ssa.Value {
+	var fv *ssa.FreeVar
+	switch x := v.(type) {
+	case *ssa.FreeVar:
+		fv = x
+	case *ssa.UnOp:
+		if x.Op == token.MUL {
+			fv, _ = x.X.(*ssa.FreeVar)
+		}
+	}
+	if fv == nil || f.Parent() == nil {
+		return v
+	}
+	idx := -1
+	for i, q := range f.FreeVars {
+		if q == fv {
+			idx = i
+		}
+	}
+	var bound ssa.Value
+	instrsOf(f.Parent(), func(in ssa.Instruction) {
+		if mc, ok := in.(*ssa.MakeClosure); ok && mc.Fn == ssa.Value(f) && idx >= 0 && idx < len(mc.Bindings) {
+			bound = mc.Bindings[idx]
+		}
+	})
+	if bound == nil {
+		return v
+	}
+	if a, ok := bound.(*ssa.Alloc); ok {
+		var val ssa.Value
+		n := 0
+		for _, ref := range *a.Referrers() {
+			if st, ok := ref.(*ssa.Store); ok && st.Addr == ssa.Value(a) {
+				val = st.Val
+				n++
+			}
+		}
+		if n == 1 {
+			return val
+		}
+		return v
+	}
+	return bound
 }
